@@ -220,4 +220,50 @@ theorem splitWs_join_words (ws : List Str) (h : ∀ w ∈ ws, IsWord w) :
       simp only [List.singleton_append, splitWsAux, hsp, hne, if_true, List.reverse_reverse]
       simp [ih']
 
+/-! ### ASCII case mapping -/
+
+theorem toNat_ofNat_small (n : Nat) (h : n < 55296) : (Char.ofNat n).toNat = n := by
+  have hv : n.isValidChar := Or.inl h
+  simp [Char.ofNat, hv, Char.toNat, Char.ofNatAux]
+
+theorem upperC_idem (c : Char) : upperC (upperC c) = upperC c := by
+  unfold upperC
+  by_cases h : isLowerC c = true
+  · have h' := h
+    simp only [isLowerC, Bool.and_eq_true, decide_eq_true_eq] at h'
+    have hn : (Char.ofNat (c.toNat - 32)).toNat = c.toNat - 32 := toNat_ofNat_small _ (by omega)
+    have : isLowerC (Char.ofNat (c.toNat - 32)) = false := by
+      simp only [isLowerC, hn]
+      have : ¬ (97 ≤ c.toNat - 32) := by omega
+      simp [this]
+    simp [h, this]
+  · simp [h]
+
+theorem lowerC_idem (c : Char) : lowerC (lowerC c) = lowerC c := by
+  unfold lowerC
+  by_cases h : isUpperC c = true
+  · have h' := h
+    simp only [isUpperC, Bool.and_eq_true, decide_eq_true_eq] at h'
+    have hn : (Char.ofNat (c.toNat + 32)).toNat = c.toNat + 32 := toNat_ofNat_small _ (by omega)
+    have : isUpperC (Char.ofNat (c.toNat + 32)) = false := by
+      simp only [isUpperC, hn]
+      have : ¬ (c.toNat + 32 ≤ 90) := by omega
+      simp [this]
+    simp [h, this]
+  · simp [h]
+
+/-- upper-casing leaves no lower-case ASCII letter -/
+theorem upperC_not_lower (c : Char) : isLowerC (upperC c) = false := by
+  unfold upperC
+  by_cases h : isLowerC c = true
+  · rw [if_pos h]
+    have h' := h
+    simp only [isLowerC, Bool.and_eq_true, decide_eq_true_eq] at h'
+    have hn : (Char.ofNat (c.toNat - 32)).toNat = c.toNat - 32 := toNat_ofNat_small _ (by omega)
+    simp only [isLowerC, hn]
+    have : ¬ (97 ≤ c.toNat - 32) := by omega
+    simp [this]
+  · rw [if_neg h]; simpa using h
+
+
 end LiquidVerif.Filters
